@@ -324,6 +324,96 @@ example : (getRun ⟨none, true, .resync⟩ [t!"verif/n"] {}
   simp [getRun, getStep, tooLong, eventLine, blankLine, dataLine, payloadOf, getDispatch, wfNote, msgType, lookupStr?, lookup, hasKey,
     notifDecodes, strOrNull, objOrNull, methodOf, paramsOf, extractString]
 
+/-! ## later calls of the Streamable client (`Last-Event-ID`) -/
+
+private theorem postIdRun_append (req : Nat) (H : List Text) (p : PostSt × IdSt) (a b : List Line) :
+    postIdRun req H p (a ++ b) = postIdRun req H (postIdRun req H p a) b := by
+  simp [postIdRun, List.foldl_append]
+
+/-- the id tracking rides on the POST-SSE reader: its first component IS the reader of the other theorems -/
+theorem C07_post_id_run_fst (req : Nat) (H : List Text) (ls : List Line) (p : PostSt × IdSt) :
+    (postIdRun req H p ls).1 = postRun req H p.1 ls := by
+  induction ls generalizing p with
+  | nil => rfl
+  | cons l ls ih => simp only [postIdRun, postRun, List.foldl_cons] at ih ⊢; rw [ih]; rfl
+
+theorem C07_get_id_run_fst (F : Facts) (H : List Text) (ls : List Line) (p : GetSt × IdSt) :
+    (getIdRun F H p ls).1 = getRun F H p.1 ls := by
+  induction ls generalizing p with
+  | nil => rfl
+  | cons l ls ih => simp only [getIdRun, getRun, List.foldl_cons] at ih ⊢; rw [ih]; rfl
+
+/-- full statement, good region (the code stores / sends only ids that are valid header field values — regenerated fact
+    `Mcp.Gen.rdIdChecked`; FALSE today, finding D33): whatever the server wrote on the call's stream or on the GET stream, a
+    later request of the client can be sent. -/
+theorem C07_later_call_streamable (req : Nat) (F : Facts) (H : List Text) (ls : List Line) (p : PostSt × IdSt) (q : GetSt × IdSt) :
+    laterCallOk true (postIdRun req H p ls).2 = true ∧ laterCallOk true (getIdRun F H q ls).2 = true := by
+  simp [laterCallOk]
+
+private theorem postIdStep_safe (req : Nat) (H : List Text) (p : PostSt × IdSt) (l : Line) (hl : idSafeLine l = true)
+    (h : p.2.last = true) : (postIdStep req H p l).2.last = true := by
+  unfold postIdStep
+  simp only
+  split
+  · exact h
+  · cases hk : l.kind <;> simp [idOfKind, h, idSafeLine, hk] at hl ⊢
+
+private theorem getIdStep_safe (F : Facts) (H : List Text) (p : GetSt × IdSt) (l : Line) (hl : idSafeLine l = true)
+    (h : p.2.ev = true ∧ p.2.last = true) : (getIdStep F H p l).2.ev = true ∧ (getIdStep F H p l).2.last = true := by
+  unfold getIdStep
+  simp only
+  split
+  · exact h
+  · cases hk : l.kind <;> cases hi : l.indent <;> simp [h, idSafeLine, hk] at hl ⊢ <;> (try split) <;> simp [h]
+
+/-- partial statement, EVERY region (the code as it is today included): as long as no `id:` line carries a value that is
+    not a valid header field value, later requests of the client can be sent — whatever else the streams contain. -/
+theorem C07_later_call_streamable_partial (chk : Bool) (req : Nat) (F : Facts) (H : List Text) (ls : List Line)
+    (hls : ∀ l ∈ ls, idSafeLine l = true) (p : PostSt × IdSt) (hp : p.2.last = true)
+    (q : GetSt × IdSt) (hq : q.2.ev = true ∧ q.2.last = true) :
+    laterCallOk chk (postIdRun req H p ls).2 = true ∧ laterCallOk chk (getIdRun F H q ls).2 = true := by
+  constructor
+  · have : (postIdRun req H p ls).2.last = true := by
+      induction ls generalizing p with
+      | nil => exact hp
+      | cons l ls ih =>
+        simp only [postIdRun, List.foldl_cons]
+        exact ih (fun x hx => hls x (by simp [hx])) _ (postIdStep_safe req H p l (hls l (by simp)) hp)
+    simp [laterCallOk, this]
+  · have : (getIdRun F H q ls).2.ev = true ∧ (getIdRun F H q ls).2.last = true := by
+      induction ls generalizing q with
+      | nil => exact hq
+      | cons l ls ih =>
+        simp only [getIdRun, List.foldl_cons]
+        exact ih (fun x hx => hls x (by simp [hx])) _ (getIdStep_safe F H q l (hls l (by simp)) hq)
+    simp [laterCallOk, this.2]
+
+/-- witness for the bad region (ids stored unchecked — today, D33): ONE `id:` line with a control character in front of the
+    well-formed answer (POST-SSE), or on the last event of the GET stream — the call itself is answered, the notification is
+    delivered, and the next request of the client cannot be sent. -/
+theorem C07_later_call_streamable_counterexample (req : Nat) (r : Json) (F : Facts) (hF : F.getLimit = none) :
+    (postFinish (postIdRun req [] ({}, {}) [⟨.idUnsafe, false, 8⟩, dataLine (wfResult req r) 0, blankLine]).1 .eof).isOk = true ∧
+    laterCallOk false (postIdRun req [] ({}, {}) [⟨.idUnsafe, false, 8⟩, dataLine (wfResult req r) 0, blankLine]).2 = false ∧
+    (getIdRun F [t!"verif/n"] ({}, {}) (⟨.idUnsafe, false, 8⟩ :: getEvent (wfNote t!"verif/n" []) 60)).1.notes = [(t!"verif/n", .obj [])] ∧
+    laterCallOk false (getIdRun F [t!"verif/n"] ({}, {}) (⟨.idUnsafe, false, 8⟩ :: getEvent (wfNote t!"verif/n" []) 60)).2 = false := by
+  have hid : idMatches req (.int (req : Int)) = true := by
+    have := C07_fact_id_key_aux
+    simp [idMatches, idMatchesK, this]
+  refine ⟨?_, ?_, ?_, ?_⟩
+  · simp [postIdRun, postIdStep, postStep, postData, postAddressed, postReceived, postFinish, dataLine, blankLine, payloadOf, wfResult,
+      hasKey, lookup, hid, CallOut.isOk]
+  · simp [postIdRun, postIdStep, postStep, postData, postAddressed, postReceived, dataLine, blankLine, payloadOf, wfResult,
+      hasKey, lookup, hid, idOfKind, laterCallOk]
+  · simp [getIdRun, getIdStep, getStep, getEvent, dataLine, blankLine, payloadOf, hF, tooLong, getDispatch, wfNote, msgType, lookupStr?,
+      lookup, hasKey, notifDecodes, strOrNull, objOrNull, methodOf, paramsOf, extractString]
+  · simp [getIdRun, getIdStep, getStep, getEvent, dataLine, blankLine, payloadOf, hF, tooLong, laterCallOk]
+
+/-- on the GET stream the damage ends with the next event that carries another (or no) id: dispatching an event stores ITS id -/
+example : laterCallOk false (getIdRun ⟨none, true, .resync⟩ [t!"verif/n"] ({}, {})
+    ([⟨.idUnsafe, false, 8⟩] ++ getEvent (wfNote t!"verif/n" []) 60 ++ getEvent (wfNote t!"verif/n" []) 60)).2 = true := by
+  simp [getIdRun, getIdStep, getStep, getEvent, dataLine, blankLine, payloadOf, tooLong, laterCallOk, getDispatch, wfNote, msgType,
+    lookupStr?, lookup, hasKey, notifDecodes, strOrNull, objOrNull, methodOf, paramsOf, extractString]
+
 /-! ## pending tables -/
 
 private theorem deliver_not_sel (t : Table) (sel : Nat → Bool) (o : CallOut) (c : Nat) (h : sel c = false) :
@@ -600,6 +690,15 @@ theorem C07_resync_legacy (F : Facts) (hF : F.latchGuarded = true) (st : LegSt) 
 theorem C07_later_call_legacy (F : Facts) (st : LegSt) (h : st.halt = none) (n : Nat) (r : Json) (size : Nat) :
     (legRun F { st with tbl := Table.init [n] } (legEvent (wfResult n r) size)).tbl.got n = some (.ok r) :=
   (leg_answer F { st with tbl := Table.init [n] } n r size h (by simp [Table.init]) rfl).1
+
+/-- handshake histories, legacy SSE (good region — today): whatever content the `message` events answering the first
+    initialize requests have (a result of the wrong shape, a JSON-RPC error, an `error` member of the wrong type, no result:
+    the model's reader does not look at it, the client's Initialize then fails and — today — only resets the client state),
+    the reader is alive afterwards and the properly answered retry (request id `n`) gets its answer. -/
+theorem C07_handshake_retry_legacy (F : Facts) (hF : F.latchGuarded = true) (st : LegSt) (h : st.halt = none)
+    (bad : List Line) (n : Nat) (r : Json) (size : Nat) :
+    (legRun F { legRun F st bad with tbl := Table.init [n] } (legEvent (wfResult n r) size)).tbl.got n = some (.ok r) :=
+  C07_later_call_legacy F _ (C07_total_legacy F hF bad st h) n r size
 
 private theorem legStep_sim (F : Facts) (c : Nat) (s1 s2 : LegSt) (l : Line) (h : LegSim c s1 s2) :
     LegSim c (legStep F s1 l) (legStep F s2 l) := by
@@ -940,6 +1039,13 @@ example : keyIs 2 (.str t!"2") = false ∧ keyIs 2 .null = false ∧ keyIs 2 (.b
 theorem C07_later_call_stdio (F : Facts) (H : List Text) (st : StdioSt) (h : st.halt = none) (n : Nat) (o : Obj) :
     (stdioRun F H { st with tbl := Table.init [n] } [.value (wfResult n (.obj o))]).tbl.got n = some (.ok (.obj o)) :=
   stdio_answer F H _ n o h (by simp [Table.init]) rfl
+
+/-- handshake histories, stdio (good region — today): whatever frames answered the first initialize requests, the properly
+    answered retry gets its answer. -/
+theorem C07_handshake_retry_stdio (F : Facts) (hF : F.stdioOnError = .resync) (H : List Text) (st : StdioSt) (h : st.halt = none)
+    (bad : List Frame) (n : Nat) (o : Obj) :
+    (stdioRun F H { stdioRun F H st bad with tbl := Table.init [n] } [.value (wfResult n (.obj o))]).tbl.got n = some (.ok (.obj o)) :=
+  C07_later_call_stdio F H _ (C07_total_stdio F hF H bad st h) n o
 
 /-- Close ends the read loop whatever it is doing (the loop condition reads `closed`) -/
 theorem C07_close_ok_stdio (st : StdioSt) : (stdioClose st).spinning = false := by
